@@ -38,8 +38,37 @@ fn check_vehicle_load_assignment(context: &CheckerContext) -> GenericResult<()> 
                     },
                 )?;
 
+                let get_load_change = |stop: &Stop, is_leg_end: bool| {
+                    stop.activities().iter().try_fold::<_, _, GenericResult<_>>(
+                        MultiDimLoad::default(),
+                        |acc, activity| {
+                            let activity_type = context.get_activity_type(tour, stop, activity)?;
+                            let (demand_type, demand) = if is_leg_end
+                                && (activity.activity_type == "arrival" || activity.activity_type == "reload")
+                            {
+                                (DemandType::StaticDelivery, end_pickup)
+                            } else {
+                                get_demand(context, activity, &activity_type)?
+                            };
+
+                            Ok(match demand_type {
+                                DemandType::StaticDelivery | DemandType::DynamicDelivery => acc - demand,
+                                DemandType::StaticPickup | DemandType::DynamicPickup => acc + demand,
+                                DemandType::None | DemandType::StaticPickupDelivery => acc,
+                            })
+                        },
+                    )
+                };
+
+                // NOTE: the first stop of the interval can have job activities too (e.g. job at departure location),
+                // a stop's load is reported after all its activities are done
+                let start_load = match interval.first() {
+                    Some((_, (from, _))) => start_delivery + get_load_change(from, false)?,
+                    None => start_delivery,
+                };
+
                 let end_capacity =
-                    interval.iter().try_fold::<_, _, GenericResult<_>>(start_delivery, |acc, (idx, (from, to))| {
+                    interval.iter().try_fold::<_, _, GenericResult<_>>(start_load, |acc, (idx, (from, to))| {
                         let from_load = MultiDimLoad::new(from.load().clone());
                         let to_load = MultiDimLoad::new(to.load().clone());
 
@@ -47,24 +76,7 @@ fn check_vehicle_load_assignment(context: &CheckerContext) -> GenericResult<()> 
                             return Err(format!("load exceeds capacity in tour '{}'", tour.vehicle_id).into());
                         }
 
-                        let change = to.activities().iter().try_fold::<_, _, GenericResult<_>>(
-                            MultiDimLoad::default(),
-                            |acc, activity| {
-                                let activity_type = context.get_activity_type(tour, to, activity)?;
-                                let (demand_type, demand) =
-                                    if activity.activity_type == "arrival" || activity.activity_type == "reload" {
-                                        (DemandType::StaticDelivery, end_pickup)
-                                    } else {
-                                        get_demand(context, activity, &activity_type)?
-                                    };
-
-                                Ok(match demand_type {
-                                    DemandType::StaticDelivery | DemandType::DynamicDelivery => acc - demand,
-                                    DemandType::StaticPickup | DemandType::DynamicPickup => acc + demand,
-                                    DemandType::None | DemandType::StaticPickupDelivery => acc,
-                                })
-                            },
-                        )?;
+                        let change = get_load_change(to, true)?;
 
                         let is_from_valid = from_load == acc;
                         let is_to_valid = to_load == from_load + change;
